@@ -320,7 +320,8 @@ class JordanCurve:
         ((2, 3), (6, 3), (2, 6))
 
         """
-        point = Point2D(*point)
+        # A copy: the vector may be one of the vertices that are moved
+        point = copy(Point2D(*point))
         for vertex in self.vertices:
             vertex.move(point)
         return self
